@@ -470,6 +470,7 @@ func (f *frame) loopHeader(li *loopInfo, phiVals map[*ssa.Phi]Val) {
 			continue
 		}
 		f.st.heap[k] = x.vc.Const("hv."+k, x.heap.sorts[k])
+		f.assume(x.heap.nilFacts(k, f.st.heap[k]))
 	}
 	na := x.vc.Const("alloc.loop", "Int")
 	f.st.heap[allocKey] = na
